@@ -217,7 +217,7 @@ def run(ctx):
     with open(cfg, 'w') as f:
         f.write('SPECIFICATION Spec\nCONSTANTS\n  Flags = {0, 1, 2, 3, 4, 9}\n  YS = %s\n  QS = %s\n  SampleMod = %d\n  SampleRes = %d\n'
                 'INVARIANT OptimalAtEachDistance\nINVARIANT ChiIsGridMinimum\nINVARIANT EmitInv\nCHECK_DEADLOCK FALSE\n'
-                % ('{4, 8, 11}', '{1, 2, 3}' if q else '{1, 2, 3, 4}', mod, ctx.seed % mod))
+                % ('{4, 8, 11}' if q else '{4, 6, 8, 11}', '{1, 2, 3}', mod, ctx.seed % mod))
     res = model_check(ctx, 'MC_FitDist', cfg, timeout=3000, coverage=False)
     table = None
     em = []
